@@ -857,9 +857,11 @@ class IncludeNode(DirectiveNode):
         if include_file and kwargs["platform"].process_include(include_file):
             # include files use the same language as the file itself,
             # irrespective of file extension.
-            lang = kwargs["state"].langs[kwargs["filename"]]
+            lang = kwargs.get("language")
+            if lang is None:
+                lang = kwargs["state"].langs[kwargs["filename"]]
             kwargs["state"].insert_file(include_file, lang)
-            kwargs["state"].associate(include_file, kwargs["platform"])
+            kwargs["state"].associate(include_file, kwargs["platform"], lang)
 
         if not include_file:
             filename = kwargs["filename"]
